@@ -153,20 +153,29 @@ fn render_case<F: Backend + RenderHints>(
             let mut hgt = 0usize;
             let mut undecidable_at = None;
             let mut beyond = false;
+            let mut exact_not_inside = 0u64;
             for k in 0..kmax {
                 let p = model(i as f64, j as f64, k as f64);
-                let (v, mag) = scene::eval64(&s.prog, &[p[0], p[1], p[2], 0.0, 0.0, free]);
-                let tol = 2e-5 * (1.0 + mag);
-                if v.abs() <= tol || v.is_nan() {
-                    undecidable_at = Some(k);
-                } else if v < 0.0 {
-                    if k >= d as usize {
-                        beyond = true;
-                    } else {
-                        hgt = k + 1;
+                let pex = scene::position_exact(&mat, [i as f64, j as f64, k as f64]);
+                let dpos = 4e-6 * (1.0 + p[0].abs().max(p[1].abs()).max(p[2].abs()));
+                let (side, _v) = scene::side_of(&s.prog, p, free, pex, dpos);
+                match side {
+                    scene::Side::Undecidable => undecidable_at = Some(k),
+                    scene::Side::Inside => {
+                        if k >= d as usize {
+                            beyond = true;
+                        } else {
+                            hgt = k + 1;
+                        }
+                    }
+                    scene::Side::NotInside => {
+                        if pex {
+                            exact_not_inside += 1;
+                        }
                     }
                 }
             }
+            cx.add("voxels_decided_exactly_or_certainly_nan_not_inside", exact_not_inside);
             if beyond {
                 cx.add("columns_skipped_negative_beyond_grid_top", 1);
                 continue;
